@@ -35,6 +35,11 @@ OFF = z3.BitVec("offset", 64)
 JX = z3.BitVec("j", 64)        # universally quantified index (fresh)
 
 
+# "disassembles successfully" (C10): a panic inside the real disassembler on the solver's bytes is itself the
+# violation, whatever else the scenario could or could not compare after it
+_PANIC = lambda d: bool(d.get("panicked"))
+
+
 def invariant(p, off, size, rem, last, start, pbl, pb):
     no_push = z3.And(size == 0, rem == 0, pbl == 0, off == p)
     open_push = z3.And(z3.UGE(size, 1), z3.ULE(size, 32), z3.UGE(rem, 1),
@@ -114,7 +119,7 @@ def truncated_push(out, eng, pr, f, enc, extra, k):
 
     def replay(p, model):
         bs = [0x5f + ev(model, width)] + [ev(model, b) for b in imm]
-        return native.scenario(out, "truncated_push", {"hex": bytes(bs).hex()})
+        return native.scenario(out, "truncated_push", {"hex": bytes(bs).hex()}, judge=_PANIC)
     verdict(out, pr, oid, paths, post, pre=pre, kinds=("return", "panic", "unreachable", "loop-bound"), replay=replay,
             key="truncated-push-bytes-become-instructions",
             what="a PUSHn followed by only %d of its n immediate bytes disassembles to INVALID entries carrying those bytes" % k)
@@ -251,7 +256,7 @@ def run(out, tier):
         return z3.And(invariant(st["ops"].base_len, st["off"], st["size"], st["rem"], st["last"], st["start"], st["pbl"], st["pb"]),
                       st["count"] == st["off"], st["ops"].base_len == 0)
     def replay_init(p, model):
-        return native.scenario(out, "disassemble_roundtrip", {"zeros": min(ev(model, L), 1 << 20)})
+        return native.scenario(out, "disassemble_roundtrip", {"zeros": min(ev(model, L), 1 << 20)}, judge=_PANIC)
     verdict(out, pr, "D1.prologue_establishes_invariant", paths, post_init, pre=[z3.ULT(L, z3.BitVecVal(1 << 32, 64))], kinds=("return", "cut"),
             replay=replay_init, key="disassemble-rejects-or-garbles-input",
             what="the empty input is the only one rejected up front; otherwise the loop is entered in a state satisfying I")
@@ -328,11 +333,11 @@ def run(out, tier):
         ln = ev(model, L)
         p0 = ev(model, P)
         tail = [ev(model, z3.Select(B, z3.BitVecVal(i, 64))) for i in range(p0, min(ln, p0 + 40))]
-        confirmed, rep = native.scenario(out, "disassemble_roundtrip", {"hex": bytes(tail).hex() or "00"})
+        confirmed, rep = native.scenario(out, "disassemble_roundtrip", {"hex": bytes(tail).hex() or "00"}, judge=_PANIC)
         if not confirmed:
             # the model describes a state in the middle of an input; compare whole inputs with a reference disassembler:
             # the model's tail and every "prefix, PUSHn, k of its n immediates" program
-            confirmed, rep = native.scenario(out, "disassemble_reference", {"hex": bytes(tail).hex() or "00"})
+            confirmed, rep = native.scenario(out, "disassemble_reference", {"hex": bytes(tail).hex() or "00"}, judge=_PANIC)
         return confirmed, rep
     verdict(out, pr, "D2.step_and_epilogue", paths, post_step, pre=pre, kinds=("cut", "return", "panic", "unreachable", "loop-bound"),
             replay=replay, key="disassemble-rejects-or-garbles-input",
